@@ -66,8 +66,6 @@ def oracle(ctx, hist, real):
     fails = []
 
     def fail(sig, what):
-        if be == "bosonic" and segs_run >= 2:
-            sig = "bosonic-later-segment-reinit"
         fails.append(sig)
         ctx.fail(sig, f"[{be}] {what}", rp)
 
@@ -75,6 +73,7 @@ def oracle(ctx, hist, real):
     seg_events = []         # accepted events of the segment under construction
     last_seg = None         # (accepted events, changed register?, nonempty?) of the segment run last
     boundary = None         # (get_modes, state) after the last successful run
+    seg_shot = set()        # targets of MSgate(avg=False) in this segment (their ancilla outcomes are filed by index)
     seg_meas = {}           # index -> "h" (post-selected homodyne, value 0.25) | "f" (MeasureFock) in this segment
     for k, (ev, ob) in enumerate(zip(hist["events"], real)):
         e = ev["e"]
@@ -90,6 +89,8 @@ def oracle(ctx, hist, real):
                     return tainted
                 newinds = spec.apply(ev)
                 seg_events.append(ev)
+                if ev.get("anc") == "shot":
+                    seg_shot.add(reghist.ref_idx(ev["ms"][0]))
                 seg_nonempty = seg_nonempty or not (ev.get("all") and not ev["ms"])
                 if e == "meas":
                     for r_ in ev["ms"]:
@@ -163,7 +164,7 @@ def oracle(ctx, hist, real):
                 if good and po["r"] != "ok":
                     fail(f"backend-rejects-live:{be}", f"event {k}: backend {pr['t']} on live {ms} raised {po['r']}")
                 if good and po["r"] == "ok":
-                    exp = live if pr["t"] == "gate" else [i for i in live if i not in ms]
+                    exp = live if pr["t"] in ("gate", "ms") else [i for i in live if i not in ms]
                     if po["gm"] != exp:
                         fail(f"backend-probe-modes:{be}", f"event {k}: after {pr['t']} {ms}: get_modes {po['gm']}, expected {exp}")
             for ms, so in zip(ev.get("modes", []), ob["smodes"]):
@@ -200,6 +201,10 @@ def oracle(ctx, hist, real):
                 elif ob.get("samples_shape") not in ([1, len(seg_meas)], [0, 0]) or (ob.get("samples_shape") == [0, 0] and seg_meas):
                     fail(f"samples-index:{be}", f"event {k}: Result.samples has shape {ob.get('samples_shape')} for {len(seg_meas)} measured modes")
             seg_meas = {}
+            ak = ob.get("anc_keys")
+            if ak is not None and not seg_shot <= set(ak):
+                fail(f"ancilla-samples-index:{be}", f"event {k}: ancilla outcomes filed under {ak}, MSgate(avg=False) acted on {sorted(seg_shot)}")
+            seg_shot = set()
             if ob["refs"] != prev_refs or ob["reg"] != live or ob["initNum"] != len(live):
                 fail("handover", f"event {k}: Program(prev) starts with {ob['refs']} / {ob['initNum']}, previous ended with {prev_refs}")
             if len(fails) > n0 and be == "bosonic" and segs_run >= 2 and tainted is None:
@@ -274,7 +279,7 @@ def model_request(hist):
     be = "fock" if hist["backend"].startswith("fock") else hist["backend"]
     evs = []
     for ev in hist["events"]:
-        ev = {k: v for k, v in ev.items() if k not in ("bad", "mismatch", "kind", "follows")}
+        ev = {k: v for k, v in ev.items() if k not in ("bad", "mismatch", "kind", "follows", "anc")}
         evs.append(ev)
     return dict(op="reg.hist", backend=be, n0=hist["n0"], events=evs)
 
@@ -335,8 +340,7 @@ def one_history(ctx, sf, hist, batch):
                 ctx.tally("end:zero-modes" if not ob["gm"] else "end:with-deleted" if None in ob["internal"] else "end:no-deletion")
                 ctx.tally("state(modes)", len(ev.get("modes", [])))
                 ctx.tally("backend-probes", len(ev.get("probe", [])))
-    if len(ctx.failures) > n0 and upto is None and not all(
-            f["sig"] == "bosonic-later-segment-reinit" for f in ctx.failures[n0:]):
+    if len(ctx.failures) > n0 and upto is None:
         upto = 0   # a property failure: do not also report it as model disagreement
     batch.append((hist, real, upto))
     return real
@@ -456,8 +460,6 @@ def run(ctx, sf):
     for be, n in plan:
         for k in range(n):
             multi = True
-            if be == "bosonic":
-                multi = (k % 8 == 0)       # later bosonic segments re-initialise the simulator (known finding)
             h = reghist.gen_history(rng, be, big=(ctx.tier == "thorough" and k % 3 == 0), multi=multi)
             one_history(ctx, sf, h, batch)
             if len(batch) >= 400:
@@ -465,8 +467,84 @@ def run(ctx, sf):
     flush(ctx, batch)
 
 
+def directed(ctx, sf, hist, upto_event):
+    """histories derived from a case on which model and code disagree: the prefix up to the disagreeing event, followed
+    by segments that make a hidden difference of the mode bookkeeping observable — a gate on every live mode, New, Del of
+    a live mode, and (bosonic) the ancilla-assisted gates — each ending in the full battery of register-vs-simulator
+    observations (get_modes, labels, data, direct calls on every index, state(modes))"""
+    be = hist["backend"]
+    evs = [dict(e) for e in hist["events"][:upto_event + 1]]
+    if not evs or evs[-1]["e"] != "end" or evs[-1].get("mismatch") or any(e["e"] in ("alien", "rerun", "resetkeep", "fresh") for e in evs):
+        return []
+    spec = reghist.Spec(hist["n0"])
+    for e in evs:
+        if e["e"] in ("new", "del", "use", "meas") and spec.accepts(e)[0]:
+            spec.apply(e)
+        elif e["e"] == "reset":
+            spec = reghist.Spec(e["n"])
+    out = []
+
+    def ending(sp):
+        created, live = len(sp.rows), sp.live()
+        probe = [{"t": "gate", "ms": [m]} for m in range(created + 2)]
+        if be == "bosonic":
+            probe += [{"t": "ms", "ms": [m]} for m in range(created + 2)]
+        modes = [live[::-1]] if live else []
+        modes += [[i] for i in range(created) if sp.rows[i] is None][:2]
+        return {"e": "end", "probe": probe, "modes": modes}
+
+    import copy as _copy
+    variants = [[]]
+    live = spec.live()
+    if be == "bosonic" and live:
+        variants += [[{"e": "use", "ms": [{"o": m}], "k": 0, "deps": [], "anc": a}] for m in live[:3] for a in ("shot", "avg")]
+    cap = 4 if be.startswith("fock") else 7        # the Fock tensor grows as cutoff^(2 * modes)
+    variants += [[{"e": "new", "n": n_}] for n_ in (1, 2) if len(live) + n_ <= cap]
+    if len(live) >= 2:
+        variants += [[{"e": "del", "ms": [{"o": live[0]}]}], [{"e": "del", "ms": [{"o": live[-1]}]}]]
+    for var in variants:
+        sp = _copy.deepcopy(spec)
+        seg1 = []
+        for e in var:
+            sp.apply(e); seg1.append(e)
+        for m in sp.live():
+            e = {"e": "use", "ms": [{"o": m}], "k": 1, "deps": []}
+            if not be.startswith("fock") or abs(sp.rows[m] + 1) <= reghist.MAXU:
+                sp.apply(e); seg1.append(e)
+        h = dict(backend=be, n0=hist["n0"], events=evs + seg1 + [ending(sp)])
+        # and one more segment that creates a mode and uses it (a wrong index counter shows there)
+        out.append(h)
+        if len(sp.live()) + 1 <= cap:
+            sp2 = _copy.deepcopy(sp)
+            seg2 = [{"e": "new", "n": 1}]
+            sp2.apply(seg2[0])
+            out.append(dict(backend=be, n0=hist["n0"], events=h["events"] + seg2 + [ending(sp2)]))
+    return out
+
+
 def search(ctx, sf):
-    run(ctx, sf)
+    # first: directed histories derived from the cases on which model and code disagree
+    batch = []
+    seen = 0
+    for d in list(ctx.disagreements)[:12]:
+        case = d.get("case") or {}
+        if not isinstance(case, dict) or "hist" not in case:
+            continue
+        h0 = case["hist"]
+        ends = [i for i, e in enumerate(h0["events"]) if e["e"] == "end" and i <= case.get("event", 0)]
+        cut = ends[-1] if ends else None
+        cands = []
+        if cut is not None:
+            cands += directed(ctx, sf, h0, cut)
+        for h in cands:
+            one_history(ctx, sf, h, batch)
+            ctx.tally("directed histories")
+            seen += 1
+        if any(not core.Known().match(ctx.pid, f["sig"]) for f in ctx.failures):
+            break
+    batch.clear()        # the directed histories are for the oracle; the tie is already known to be broken
+    if not any(not core.Known().match(ctx.pid, f["sig"]) for f in ctx.failures):
+        run(ctx, sf)
 
 
 def replay(ctx, rp):
